@@ -192,6 +192,26 @@ func init() {
 				}
 				if i == 0 {
 					inputs = append(inputs, hostile(g, v, r.Appended)...)
+					// every kind of unregistered / blank / odd discriminator, as the pinned layout puts it on the wire
+					for fi, op := range t.fieldOps() {
+						if op.K != "union" {
+							continue
+						}
+						kop := t.fieldOps()[op.Key]
+						for _, kv := range nearMissKeys(g, schema.Tables[op.Tbl]) {
+							if kop.K == "scalar" {
+								kv.N &= maxOf(kop.W)
+							} else if len(kv.S) > kop.N {
+								continue
+							}
+							bad := v.clone()
+							bad.Fs[op.Key] = kv
+							_ = fi
+							if wire, ok := renderPinned(bad); ok {
+								inputs = append(inputs, wire)
+							}
+						}
+					}
 				}
 				for _, data := range inputs {
 					d := corrDec(o, t.ID, data, g.mode())
